@@ -3,6 +3,8 @@
 package tcell
 
 import (
+	"unicode/utf8"
+	"bytes"
 	"github.com/gdamore/tcell/v2/terminfo"
 	"errors"
 
@@ -252,4 +254,59 @@ func H17_acs() {
 		vsymAssert(out == want, "an ACS rune is written as enter-ACS, glyph, exit-ACS without terminfo padding residue: "+ti.Name)
 		vsymAssert(t.CanDisplay(r, false), "CanDisplay is true for a rune drawn as an ACS glyph: "+ti.Name)
 	}
+}
+
+// H17_mb: the real double-byte legacy encoders (EUC-KR, EUC-JP, Shift_JIS, GBK, Big5) on
+// every rune of a 256-rune window of the BMP (quick: six representative windows; thorough:
+// all 256): the cell is written as exactly what the encoder gives for the rune, or - when
+// the charset cannot represent it - as '?' padded to the cell's width; never as raw UTF-8
+// or an encoder substitution byte.  CanDisplay agrees.  (The encoder applied directly to the
+// rune is the reference; the x/text tables themselves are not judged.)
+func H17_mb() {
+	cs := h11MB[vsymChoice("charset", len(h11MB))]
+	vsymNote("charset", cs.name)
+	var base int
+	if vsymParam("allwins", 0) == 1 {
+		base = vsymChoice("runewin", 256) * 256
+	} else {
+		base = []int{0x0000, 0x0400, 0x3000, 0x4e00, 0xac00, 0xff00}[vsymChoice("runewin", 6)]
+	}
+	t := hNewTScreen("vt220")
+	t.charset = cs.name
+	t.encoder = cs.enc.NewEncoder()
+	t.tty = newHTty(3, 1)
+	t.cells.Resize(3, 1)
+	t.w, t.h = 3, 1
+	t.acs = map[rune]string{}
+	t.fallback = map[rune]string{}
+	r := vsymRune("r")
+	vsymAssume(vsymAnd(r >= rune(base), r <= rune(base+255)))
+	vsymAssume(vsymAnd(r >= 0xa0, vsymOr(r < 0xd800, r > 0xdfff)))
+	t.cells.SetContent(0, 0, r, nil, StyleDefault)
+	shown, _, _, width := t.cells.GetContent(0, 0)
+	vsymAssume(shown == r) // zero-width and control runes are blanked (C09)
+	// reference: the encoder applied to the rune directly
+	src := make([]byte, 4)
+	n := utf8.EncodeRune(src, r)
+	dst := make([]byte, 8)
+	m, _, err := cs.enc.NewEncoder().Transform(dst, src[:n], true)
+	representable := err == nil && m > 0 && dst[0] != 0x1a
+	t.buffering = true
+	t.buf.Reset()
+	t.cx, t.cy = 0, 0
+	t.style, t.curstyle = StyleDefault, StyleDefault
+	t.cells.SetDirty(0, 0, true)
+	t.drawCell(0, 0)
+	out := t.buf.Bytes()
+	if representable {
+		vsymAssert(bytes.Equal(out, dst[:m]), "a representable rune is written as its charset encoding")
+	} else if width == 2 {
+		vsymAssert(string(out) == "? ", "an unrepresentable wide rune is written as '?' padded to two columns")
+	} else {
+		vsymAssert(string(out) == "?", "an unrepresentable rune with no ACS glyph or fallback is written as '?'")
+	}
+	for _, b := range out {
+		vsymAssert(b != 0x1a, "never an encoder substitution byte")
+	}
+	vsymAssert(t.CanDisplay(r, true) == representable, "CanDisplay agrees with what is drawn")
 }
